@@ -399,7 +399,7 @@ LIT_EDGES = ['0', '1', '2147483647', '2147483648', '3000000000', '4294967295', '
              '017777777777', '020000000000', '037777777777', '040000000000', '01777777777777777777777',
              '0b1', '0b11111111', '0b10000000000000000000000000000000', '0b11111111111111111111111111111111',
              '0b100000000000000000000000000000000',
-             '1.5', '1.5f', '.5', '5.', '1e3', '1e+3', '1e-3f', '1.5e3F', 'true', 'false']
+             '1.5', '1.5f', '.5', '5.', '1e3', '1e+3', '1e-3f', '1.5e3F', '1.0000000596046448f', 'true', 'false']
 
 
 def literal_program(lits):
